@@ -174,6 +174,14 @@ func (x *gen) body(w *world, mod string, depth int) []*sg.Node {
 				return []string{"1", "2", "3", "10", "0", "127"}[g.Pick(6, "kn")]
 			}}
 			l := &sg.Node{Kind: "list", Name: name, Key: key.Name, Kids: append([]*sg.Node{key}, x.body(w, mod, depth-1)...)}
+			if g.Chance(1, 3, "key2") {
+				// a second key: entries may share the value of the first one
+				k2 := &sg.Node{Kind: "leaf", Name: name + "key2", Type: &sg.TypeSpec{Name: "uint16"}}
+				w.vals[k2.Name] = leafInfo{ts: k2.Type, gen: func() string { return []string{"1", "2", "3", "10"}[g.Pick(4, "k2v")] }}
+				w.mod[k2.Name] = mod
+				l.Key += " " + k2.Name
+				l.Kids = append([]*sg.Node{key, k2}, l.Kids[1:]...)
+			}
 			if g.Bool("userordered") {
 				l.OrdBy = "user"
 			}
@@ -247,14 +255,21 @@ func (x *gen) data(w *world, kids []*sg.Node, depth int) []*D {
 			k := g.Pick(5, "entries")
 			d := &D{Name: n.Name}
 			seen := map[string]bool{}
+			keys := strings.Fields(n.Key)
 			for i := 0; i < k; i++ {
-				kv := w.vals[n.Key].gen()
-				if seen[kv] {
+				kv := w.vals[keys[0]].gen()
+				e := &D{Name: kv, Kids: []*D{{Name: keys[0], Vals: []string{kv}}}}
+				tuple := kv
+				for _, kn := range keys[1:] {
+					v2 := w.vals[kn].gen()
+					tuple += "\x00" + v2
+					e.Kids = append(e.Kids, &D{Name: kn, Vals: []string{v2}})
+				}
+				if seen[tuple] {
 					continue
 				}
-				seen[kv] = true
-				e := &D{Name: kv, Kids: []*D{{Name: n.Key, Vals: []string{kv}}}}
-				e.Kids = append(e.Kids, x.data(w, n.Kids[1:], depth-1)...)
+				seen[tuple] = true
+				e.Kids = append(e.Kids, x.data(w, n.Kids[len(keys):], depth-1)...)
 				d.Kids = append(d.Kids, e)
 			}
 			if len(d.Kids) > 0 {
@@ -311,7 +326,7 @@ func collect(mods []*sg.Mod) *orderInfo {
 			}
 			if k.Kind == "list" {
 				oi.lists[k.Name] = true
-				oi.keyOf[k.Name] = k.Key
+				oi.keyOf[k.Name] = strings.Fields(k.Key)[0]
 			}
 			if k.Kind == "leaf" {
 				oi.leaves[k.Name] = true
@@ -333,18 +348,24 @@ func collect(mods []*sg.Mod) *orderInfo {
 }
 
 func canon(oi *orderInfo, ds []*D, depth int, b *strings.Builder, parentUser bool) {
-	sorted := append([]*D(nil), ds...)
-	if !parentUser {
-		sort.SliceStable(sorted, func(i, j int) bool { return sorted[i].Name < sorted[j].Name })
-	}
-	for _, d := range sorted {
+	var parts []string
+	for _, d := range ds {
+		var sb strings.Builder
 		vals := append([]string(nil), d.Vals...)
 		if !oi.userOrdered[d.Name] {
 			sort.Strings(vals)
 		}
-		fmt.Fprintf(b, "%s%s %q\n", strings.Repeat("  ", depth), d.Name, vals)
+		fmt.Fprintf(&sb, "%s%s %q\n", strings.Repeat("  ", depth), d.Name, vals)
 		// entries of a user-ordered list keep their order; everything else is a multiset
-		canon(oi, d.Kids, depth+1, b, oi.userOrdered[d.Name] && oi.lists[d.Name])
+		canon(oi, d.Kids, depth+1, &sb, oi.userOrdered[d.Name] && oi.lists[d.Name])
+		parts = append(parts, sb.String())
+	}
+	if !parentUser {
+		// by name, then by content: entries of a list with several keys may share their name (the first key's value)
+		sort.Strings(parts)
+	}
+	for _, p := range parts {
+		b.WriteString(p)
 	}
 }
 
